@@ -124,9 +124,12 @@ impl<R> Archive<R> {
         ) as usize;
 
         // Read the dictionary, chunk data offset and header hash
+        let header_rest_size = dictionary_size
+            .checked_add(8 + 64)
+            .ok_or_else(|| ArchiveError::invalid_archive("invalid dictionary size"))?;
         header.extend_from_slice(
             &reader
-                .read_at(header::PRE_HEADER_SIZE as u64, dictionary_size + 8 + 64)
+                .read_at(header::PRE_HEADER_SIZE as u64, header_rest_size)
                 .await
                 .map_err(ArchiveError::ReaderError)?,
         );
@@ -157,13 +160,17 @@ impl<R> Archive<R> {
         let archive_chunks = dictionary
             .chunk_descriptors
             .into_iter()
-            .map(|dict| ChunkDescriptor {
-                checksum: dict.checksum.into(),
-                archive_size: dict.archive_size as usize,
-                archive_offset: chunk_data_offset + dict.archive_offset,
-                source_size: dict.source_size,
+            .map(|dict| {
+                Ok(ChunkDescriptor {
+                    checksum: dict.checksum.into(),
+                    archive_size: dict.archive_size as usize,
+                    archive_offset: chunk_data_offset
+                        .checked_add(dict.archive_offset)
+                        .ok_or_else(|| ArchiveError::invalid_archive("invalid chunk offset"))?,
+                    source_size: dict.source_size,
+                })
             })
-            .collect();
+            .collect::<Result<Vec<ChunkDescriptor>, ArchiveError<R::Error>>>()?;
         let chunker_params = dictionary
             .chunker_params
             .ok_or_else(|| ArchiveError::invalid_archive("invalid chunker parameters"))?;
